@@ -166,7 +166,7 @@ func c11State(c *Ctx, n *Node) []Violation {
 	}
 	// (iv) reset HEAD@{n} resolves position n to the entry reflog shows at n
 	for i, en := range v.entries {
-		if n := len(v.entries); n > 30 && !(i <= 2 || (i >= 9 && i <= 11) || (i >= 99 && i <= 101) || i >= n-2) {
+		if n := len(v.entries); n > 30 && !(i <= 2 || (i >= 9 && i <= 11) || (i >= 99 && i <= 101) || (i >= 126 && i <= 129) || (i >= 254 && i <= 257) || i >= n-2) {
 			continue // very long journals: the positions around the digit-count boundaries and both ends
 		}
 		st := Run("reset", "--soft", fmt.Sprintf("HEAD@{%d}", i))
@@ -202,7 +202,7 @@ func c11State(c *Ctx, n *Node) []Violation {
 func checkC11(e *RunEnv) *CheckResult {
 	msgs := []string{"m", "fix: x", "a\tb", "two\nlines", "s\nthree word line", "\nbody three words here", "100% %s done", strings.Repeat("word ", 1000), strings.Repeat("seventy thousand ", 4200), " lead", "trail ", "é", "x: y: z"}
 	spec := &Spec{
-		Seeds: []Seed{{"S0", seedS0()}, {"S2", seedS2()}, {"chain12", seedChain(12)}, {"chain101", seedChain(101)}},
+		Seeds: []Seed{{"S0", seedS0()}, {"S2", seedS2()}, {"chain12", seedChain(12)}, {"chain140", seedChain(140)}},
 		Depth: e.pick(3, 4),
 		Steps: func(n *Node) []Step {
 			a := n.Abs()
@@ -229,6 +229,9 @@ func checkC11(e *RunEnv) *CheckResult {
 		},
 		CheckTrans: c11Trans,
 		CheckState: c11State,
+	}
+	if e.Thorough() {
+		spec.Seeds = append(spec.Seeds, Seed{"chain260", seedChain(260)})
 	}
 	res := runSpec(e, spec, nil)
 	// second pass: the same journal machinery with the log lines written in a negative,
